@@ -167,3 +167,29 @@ package calc
 //@   ghost at call Delete#3: check item.Key == key && c03SameMeta(item.Value, tierInfo.Policies, key)
 //@   ghost at call Delete#5: check item.Key == key && c03SameMeta(item.Value, tierInfo.Policies, key)
 //@   ghost at call ReplaceOrInsert#2: check item.Key == key && item.Value == newPolicy
+
+//@ -- ---------------------------------------------------------------- C05: fail closed
+//@ -- A profile that an endpoint uses but that is unknown (missing or failed validation) is handed to the rule
+//@ -- scanner as the deny-everything stand-in, a known one as itself; an unused profile is reported inactive.
+//@ func (*ActiveRulesCalculator).sendProfileUpdate
+//@   property C05
+//@   option safety off
+//@   requires arc != nil
+//@   ghost at call OnProfileActive: check active ; check arg1.ProfileKey.Name == profileID ; check known ==> arg2 == rules ; check !known ==> arg2 == addrof(DummyDropRules)
+//@   ghost at call OnProfileInactive: check !active ; check arg1.ProfileKey.Name == profileID
+
+//@ -- The validation filter forwards every update with its key; a value is forwarded either unchanged or as nil
+//@ -- (never a partially applied value), in the same order; a value for which a validator returned an error is
+//@ -- forwarded as nil.
+//@ ghost c05Must set[int]
+//@ func (*ValidationFilter).OnUpdates
+//@   property C05
+//@   option safety off
+//@   option stable (*model.KVPair).Key, (*model.KVPair).Value, (*api.Update).UpdateType
+//@   requires v != nil && c05Must == emptyset(int)
+//@   ghost at call validatorFunc: c05Must = store(c05Must, i, c05Must[i] || res != nil)
+//@   ghost at call validateWorkloadEndpoint: c05Must = store(c05Must, i, c05Must[i] || res != nil)
+//@   ghost at call OnUpdates: check len(arg1) == len(updates) && (forall j int :: 0 <= j && j < len(updates) ==> arg1[j].KVPair.Key == updates[j].KVPair.Key && (arg1[j].KVPair.Value == updates[j].KVPair.Value || arg1[j].KVPair.Value == nil) && (c05Must[j] ==> arg1[j].KVPair.Value == nil))
+//@   loop 1 invariant -1 <= rangeindex && rangeindex < len(updates) && len(filteredUpdates) == len(updates) && fresh(filteredUpdates)
+//@   loop 1 invariant forall j int :: 0 <= j && j <= rangeindex ==> filteredUpdates[j].KVPair.Key == updates[j].KVPair.Key && (filteredUpdates[j].KVPair.Value == updates[j].KVPair.Value || filteredUpdates[j].KVPair.Value == nil) && (c05Must[j] ==> filteredUpdates[j].KVPair.Value == nil)
+//@   loop 1 invariant forall j int :: j > rangeindex ==> !c05Must[j]
